@@ -9,9 +9,11 @@ import (
 	"log/slog"
 	"net"
 	"os"
+	"reflect"
 	"strings"
 	"testing"
 	"time"
+	"unsafe"
 
 	"github.com/AdguardTeam/AdGuardDNS/internal/agd"
 	"github.com/AdguardTeam/AdGuardDNS/internal/dnsserver"
@@ -108,9 +110,9 @@ type c18Env struct {
 	inner    []*c18Inner
 	lsnr     []net.Listener
 	conns    []*c18Conn
-	handed   []net.Conn // limited conns returned by Accept, in order
-	open     int        // monitors' count: pending inner accepts + open conns
-	blocked  bool       // count reached stop and has not yet fallen to resume
+	handed   []net.Conn  // limited conns returned by Accept, in order
+	open     int         // monitors' count: pending inner accepts + open conns
+	blocked  bool        // count reached stop and has not yet fallen to resume
 	parked   map[int]int // task id -> listener idx while inside Accept
 	results  []string
 	findings []vrt.Finding
@@ -228,10 +230,41 @@ func c18Setup(sc c18Scenario, s *xsched.Sched) (env *c18Env) {
 	return env
 }
 
+// c18Waiters counts the tasks parked on the condition variables of the
+// limiter and of its listeners.  The variables are found by reflection, so
+// that the harness does not depend on where exactly they live.
+func c18Waiters(env *c18Env) (n int) {
+	seen := map[any]bool{}
+	objs := []any{env.lim}
+	for _, l := range env.lsnr {
+		objs = append(objs, l)
+	}
+	for _, o := range objs {
+		v := reflect.ValueOf(o)
+		if v.Kind() != reflect.Pointer || v.IsNil() || v.Elem().Kind() != reflect.Struct {
+			continue
+		}
+		v = v.Elem()
+		for i := 0; i < v.NumField(); i++ {
+			f := v.Field(i)
+			if f.Kind() != reflect.Pointer || f.IsNil() {
+				continue
+			}
+			p := reflect.NewAt(f.Type(), unsafe.Pointer(f.UnsafeAddr())).Elem().Interface()
+			if w, ok := p.(interface{ Waiters() int }); ok && !seen[p] {
+				seen[p] = true
+				n += w.Waiters()
+			}
+		}
+	}
+
+	return n
+}
+
 func c18Digest(env *c18Env) string {
 	var sb strings.Builder
 	c := env.lim.counter
-	fmt.Fprintf(&sb, "cur=%d acc=%v ref=%v open=%d blk=%v w=%d |", c.current, c.isAccepting, env.refAccepting, env.open, env.blocked, env.lim.counterCond.Waiters())
+	fmt.Fprintf(&sb, "cur=%d acc=%v ref=%v open=%d blk=%v w=%d |", c.current, c.isAccepting, env.refAccepting, env.open, env.blocked, c18Waiters(env))
 	for _, l := range env.lsnr {
 		fmt.Fprintf(&sb, "%v", l.(*limitListener).isClosed)
 	}
